@@ -16,6 +16,8 @@ pub struct Cfg {
     pub seed: u64,
     pub par: usize,
     pub replay: Option<String>,
+    /// signature recorded in the replay file (campaign replays report only this one)
+    pub replay_sig: Option<String>,
 }
 
 impl Cfg {
@@ -26,6 +28,12 @@ impl Cfg {
     pub fn t<T>(&self, quick: T, thorough: T) -> T {
         if self.thorough { thorough } else { quick }
     }
+}
+
+/// "release" or "debug-assertions" (the relcheck profile: OxiDD with debug assertions and
+/// overflow checks, harness unchanged)
+pub fn variant() -> String {
+    std::env::var("VERIF_VARIANT").unwrap_or_else(|_| "release".into())
 }
 
 pub fn verif_dir() -> String {
@@ -361,6 +369,20 @@ pub fn merge_jobs(total: &mut Report, outs: Vec<JobOut>, names: &[String]) {
                         .and_then(|s| s.as_str())
                         .map(|s| s.to_string())
                         .unwrap_or_else(|| format!("crash/{name}"));
+                    // markers wrap the case as {"sig", "case"|"ctx"}: store what a regular
+                    // violation of the same module stores, so that --replay understands it
+                    let inner = case.get("case").filter(|c| c.is_object()).or_else(|| case.get("ctx").filter(|c| c.is_object())).cloned();
+                    let case = match inner {
+                        Some(mut c) => {
+                            for (k, v) in case.as_object().unwrap() {
+                                if k != "sig" && k != "case" && k != "ctx" {
+                                    c.as_object_mut().unwrap().entry(k.clone()).or_insert(v.clone());
+                                }
+                            }
+                            c
+                        }
+                        None => case,
+                    };
                     total.viol(
                         sig,
                         format!("process died ({e:?}{}) while executing the recorded case", panic.map(|p| format!(", panic: {p}")).unwrap_or_default()),
@@ -429,6 +451,49 @@ pub fn conclude(cfg: &Cfg, rep: &Report, meta: Meta, start: Instant) -> i32 {
             rep_own.inconclusive.push(format!("{t} isolated execution(s) in the main process hit the watchdog, {} skipped afterwards", SKIPPED_AFTER_TIMEOUTS.load(Relaxed)));
         }
     }
+    // --- sub-run (debug-assertion build executed by the main run): hand the raw report back
+    if let Ok(path) = std::env::var("VERIF_SUB_OUT") {
+        let _ = std::fs::write(&path, serde_json::to_string(&json!({"report": rep_own, "wall_s": start.elapsed().as_secs_f64()})).unwrap());
+        println!("{} {} [sub-run {}]: evaluations={} nontrivial={} violations={} inconclusive={}", cfg.prop, cfg.tier(), variant(), rep_own.evaluations, rep_own.nontrivial, rep_own.viols.len(), rep_own.inconclusive.len());
+        return 0;
+    }
+    // --- second pass with OxiDD's debug assertions and overflow checks enabled
+    let mut relcheck_info = json!(null);
+    if cfg.replay.is_none() && !matches!(cfg.prop.as_str(), "C19" | "C20") {
+        if let Ok(bin) = std::env::var("VERIF_RELCHECK_BIN") {
+            let vd = verif_dir();
+            let _ = std::fs::create_dir_all(format!("{vd}/target/sub"));
+            let out = format!("{vd}/target/sub/{}.json", cfg.prop);
+            let _ = std::fs::remove_file(&out);
+            let t0 = Instant::now();
+            let st = std::process::Command::new(&bin)
+                .args([cfg.prop.as_str(), "quick"])
+                .env("VERIF_SUB_OUT", &out)
+                .env("VERIF_VARIANT", "debug-assertions")
+                .env("VERIF_SEED", format!("{}", if cfg.thorough { cfg.seed.wrapping_add(1) } else { cfg.seed }))
+                .stdout(std::process::Stdio::null())
+                .stderr(std::process::Stdio::null())
+                .status();
+            let sub: Option<Value> = std::fs::read_to_string(&out).ok().and_then(|s| serde_json::from_str(&s).ok());
+            match (st, sub) {
+                (Ok(st), Some(v)) if st.success() => {
+                    if let Ok(r) = serde_json::from_value::<Report>(v["report"].clone()) {
+                        relcheck_info = json!({"binary": bin, "tier": "quick", "evaluations": r.evaluations, "distinct_nontrivial": r.nontrivial, "violations": r.viols.len(), "wall_s": t0.elapsed().as_secs_f64()});
+                        rep_own.evaluations += r.evaluations;
+                        rep_own.nontrivial += r.nontrivial;
+                        rep_own.excluded_by_known_finding += r.excluded_by_known_finding;
+                        for i in r.inconclusive {
+                            rep_own.inconclusive.push(format!("[debug-assertion build] {i}"));
+                        }
+                        for v in r.viols {
+                            rep_own.viols.push(Viol { sig: format!("{}+debug-assertions", v.sig), what: format!("[OxiDD built with debug assertions and overflow checks] {}", v.what), case: v.case });
+                        }
+                    }
+                }
+                (st, _) => rep_own.inconclusive.push(format!("debug-assertion build: sub-run did not deliver a report ({st:?})")),
+            }
+        }
+    }
     let rep = &rep_own;
     let findings = load_findings();
     let vd = verif_dir();
@@ -457,14 +522,30 @@ pub fn conclude(cfg: &Cfg, rep: &Report, meta: Meta, start: Instant) -> i32 {
                 continue;
             }
             let fname = format!("{dir}/{}.json", v.sig.replace(['/', ' ', ':'], "_"));
-            let body = json!({"property": cfg.prop, "signature": v.sig, "what": v.what, "case": v.case, "seed": cfg.seed, "tier": cfg.tier()});
+            let mut body = json!({"property": cfg.prop, "signature": v.sig, "what": v.what, "case": v.case, "seed": cfg.seed, "tier": cfg.tier()});
+            if v.sig.ends_with("+debug-assertions") {
+                body["variant"] = json!("debug-assertions");
+            }
             let _ = std::fs::write(&fname, serde_json::to_string_pretty(&body).unwrap());
             println!("VIOLATION property={} replay={}", cfg.prop, fname);
             println!("  what: {}", v.what);
             replay_paths.push(fname);
         }
     } else {
+        // campaign replay (modules without a case-level replay): the recorded seed and tier were
+        // restored by main(); only the recorded signature counts
+        if let Some(want) = &cfg.replay_sig {
+            let want = want.trim_end_matches("+debug-assertions").to_string();
+            new_viols.retain(|v| v.sig == want);
+            if new_viols.is_empty() {
+                println!("replay: the recorded violation ({want}) does not occur any more");
+            }
+        }
+        let mut seen = std::collections::BTreeSet::new();
         for v in &new_viols {
+            if !seen.insert(v.sig.clone()) {
+                continue;
+            }
             println!("VIOLATION property={} replay={}", cfg.prop, cfg.replay.clone().unwrap());
             println!("  what: {}", v.what);
         }
@@ -473,12 +554,13 @@ pub fn conclude(cfg: &Cfg, rep: &Report, meta: Meta, start: Instant) -> i32 {
     let mut coverage = json!({
         "evaluations": rep.evaluations,
         "distinct_nontrivial": rep.nontrivial,
-        "rule": meta.rule,
+        "rule": if relcheck_info.is_null() { meta.rule.to_string() } else { format!("{} SECOND PASS: the quick tier of the same check is then executed by a build in which OxiDD and all dependencies are compiled with debug assertions and overflow checks (cargo profile relcheck; the harness itself unchanged), so that OxiDD's internal assertions act as additional oracles and panics that only debug builds show are found; its evaluations are included in the counts, and violations found there carry the signature suffix +debug-assertions.", meta.rule) },
         "samples": rep.samples,
         "classes": rep.classes,
         "exhaustive": rep.exhaustive,
         "excluded_by_known_finding": rep.excluded_by_known_finding,
         "known_findings_hit": known,
+        "debug_assertion_build": relcheck_info,
         "inconclusive": rep.inconclusive,
         "violation_details": new_viols.iter().take(10).map(|v| json!({"sig": v.sig, "what": v.what, "case": v.case})).collect::<Vec<_>>(),
     });
